@@ -9,7 +9,8 @@ appends every (name, value) of it (repeated names included); (R4) date condition
 second (rows of C04.R1 with a sub-second mtime); (R5) the round-trip clauses are
 rows of the C04 / C05 tables with the request validator equal to the served one
 (reflexivity of the extracted comparator tables: weak(x,x) always, strong(x,x)
-iff x is strong).  Does not decide: the clock; httpdate's formatting."""
+iff x is strong) and the tag-list tokeniser that has to find the served tag again in the
+echoed list ends an element at the next quote - entity-tags have no escapes - (R5.list).  Does not decide: the clock; httpdate's formatting."""
 from . import serve_model as SM
 from . import C04
 from . import etagcmp
